@@ -61,6 +61,9 @@ fn main() {
     };
     let vectors = selfcheck::run(&repo);
     let ctx = Ctx { id: id.clone(), tier, seed, verif_dir, started: std::time::Instant::now() };
+    if id == "C08" {
+        std::process::exit(checks::c08::run_parent(&ctx));
+    }
     let mut rep = checks::run(&ctx).unwrap_or_else(|| machinery_error(&format!("unknown property {}", id)));
     rep.assumptions.push(format!(
         "reference model (harness/refmodel) is correct; it reproduced canonical request, string-to-sign and acceptance of {} AWS vectors at start-up",
